@@ -44,7 +44,26 @@ def table(ctx, tag="C22"):
     foreign = [(p, cbs[(3 * i) % len(cbs)], True) for i, (_, p) in enumerate(ff)] + \
               [(p, cbs[(5 * i + 1) % len(cbs)], False) for i, (_, p) in enumerate(ff)]
     labels = [lab for lab, _ in ff] + [lab for lab, _ in ff]
-    entries, fverd, res = FG.run_table(ctx, r, K, cbs, his, foreign, workers=6)
+    # any slot of the program table may be handed out (register_sync_group: randrange(MAX_PROGS)): the edges and
+    # some slots in between (thorough: all of them) must behave exactly like the modelled group
+    groups = [h for h in ([0, 1, 31, 62, 63] if ctx.quick else range(64)) if h != r.g]
+    gcbs = [cbs[0], 255] if ctx.quick else [6, 7]      # an even and an odd counter value
+    entries, fverd, res = FG.run_table(ctx, r, K, cbs, his, foreign, workers=6, groups=groups, gcbs=gcbs)
+    nd_ = 2 * K + 2
+    ngr = 0
+    for (cb, ix, v), rec in sorted(res.groups.items()):
+        for gj in rec["groups"]:
+            ngr += 1
+            ctx.traces += 1
+            ctx.evaluated(("slot", gj["h"], cb, ix, v), nontrivial=gj["row"]["cb2"] != cb)
+            if not gj["same"]:
+                diff = {k: (gj["row"][k], rec["base"][k]) for k in rec["base"] if gj["row"][k] != rec["base"][k]}
+                ctx.case_failed(dict(kind="slot-dependent", group=gj["h"], modelled_group=r.g, counter=cb, index=ix,
+                                     variant=FG.VARIANTS[v - 1], differs=diff, row=gj["row"], base=rec["base"]),
+                                f"a group at slot {gj['h']} of the program table is not treated like group {r.g}: delivery "
+                                f"at counter byte {cb}, index byte {ix}, {FG.VARIANTS[v - 1]}: (slot {gj['h']}, group "
+                                f"{r.g}) differ in {diff}")
+    ctx.extra["slots"] = dict(groups=list(groups), counter_values=gcbs, deliveries=ngr)
     ctx.extra["table"] = dict(entries=len(entries), K=K, counter_values=len(cbs), variants=len(FG.VARIANTS),
                               program_sizes=[len(r.disp.insns), len(r.group.insns)], tlc_wall=round(res.wall, 1))
     # the effect of a delivery depends on the counter's low byte only
@@ -61,6 +80,8 @@ def table(ctx, tag="C22"):
     if kernel.available():
         try:
             n, bad = FG.kernel_check_entries(r, entries, foreign, fverd)
+            n3, bad3 = FG.kernel_check_groups(r, res.groups)
+            n, bad = n + n3, bad + bad3
         except kernel.VerifierReject as e:
             ctx.case_failed(dict(kind="verifier-reject", log=e.log[-600:]),
                             f"the kernel verifier rejects a generated program: {str(e)[-300:]}")
